@@ -484,7 +484,7 @@ func (x *c20Extractor) stmt(s ast.Stmt) []c20Path {
 	case *ast.IfStmt:
 		x.nIf++
 		pre := x.exprTokens(v.Init)
-		cond := x.src(v.Cond)
+		cond := c20NormCond(x.src(v.Cond))
 		pre = append(pre, x.exprTokens(v.Cond)...)
 		g := c20Guards[cond]
 		if g == "" && c20RetireGuard.MatchString(cond) {
@@ -928,6 +928,18 @@ func c20ExtractCLI(repo string, r *c20Regions, x *c20Extractor) error {
 	reads := hasCall(sl, "readSignalProgressFile", "") || hasCall(sl, "waitReloadCompletion", "")
 	fact("cli suspend reads-progress=" + c20B(reads) + " abortmarker=" + c20B(hasCall(sl, "os.Create", "AbortFile")))
 	return nil
+}
+
+var c20NilLeft = regexp.MustCompile(`\bnil (==|!=) ([A-Za-z_][A-Za-z0-9_.]*(\(\))?)`)
+
+// c20NormCond: `nil == x` → `x == nil`, redundant outer parentheses dropped, so that the guard table
+// does not depend on such spellings.
+func c20NormCond(c string) string {
+	c = c20NilLeft.ReplaceAllString(c, "$2 $1 nil")
+	for strings.HasPrefix(c, "(") && strings.HasSuffix(c, ")") && strings.Count(c, "(") == 1 {
+		c = strings.TrimSpace(c[1 : len(c)-1])
+	}
+	return c
 }
 
 func c20RepoDir() string {
